@@ -1,14 +1,18 @@
 """C18 Concurrent storage allocations never overlap (db19/stor/stor.go Alloc/extend)
 
-Mutation testing of this check (scratch worktree, VERIF_REPO=<dir>, quick tier, seeds 1..3;
-each mutant compiles and passes `go test -short ./db19/stor/`):
-  M1 extend: allocChunk.Add(1) before size.Store(...)            -> VIOLATION (gated trace)
-  M2 Alloc: test `endChunk == offsetToChunk(offset)` (straddle only) instead of
-     `endChunk == int(allocChunk)`                               -> VIOLATION (gated trace)
-  M3 extend without the "another thread beat us" return          -> VIOLATION (gated trace)
-  M4 extend: size.Store(allocChunk << shift) (start of the OLD chunk) -> VIOLATION
-  M5 Alloc returns s.Data(offset)[:n+1] style off-by-one slice   -> VIOLATION (len # n)
-See the report / DESIGN.md C18 for details.
+Mutation testing of this check (scratch worktree on top of the hook commit, VERIF_REPO=<dir>,
+quick tier, VERIF_SEED=1,2,3; every mutant compiles and passes `go test -short ./db19/stor/`):
+  M1 extend: allocChunk.Add(1) moved before size.Store(...)             VIOLATION 3/3 (gated: overlap)
+  M2 Alloc: `endChunk == allocChunk || (no straddle && chunk mapped)`, i.e. the
+     "another thread bumped us into the next chunk" test dropped        VIOLATION 3/3 (gated: overlap)
+  M3 extend without the "another thread beat us to it" return           VIOLATION 3/3 (gated: overlap / beyond size)
+  M5 size.Add(n) replaced by Load()+n; Store()  (not atomic)            VIOLATION 3/3 (free-running stress: overlap)
+  M6 extend: lock released right after Lock() (no mutual exclusion)     VIOLATION 3/3 (gated: returned slice is no
+                                                                        longer the storage at its offset, Done.bad)
+  rejected as mutants because the repository's own TestAlloc fails: straddle-only test without the
+  chunk-mapped condition; size.Store(start of the OLD chunk).
+Deviations of the model (Dev = reorder / nocheck / nobeat) are shown to violate Disjoint by TLC.
+VERIF_SKIP_MC=1 skips the spec-only TLC runs (developer shortcut for mutation loops only).
 """
 import json, os, re
 
@@ -42,8 +46,31 @@ def gen_schedules(ctx, cfg, num, path, workers=4):
     return n
 
 
+def replay(ctx):
+    """--replay <trace>: re-execute the recorded gated schedules against the current tree and
+    validate that execution; a free-running trace can only be re-validated as recorded"""
+    from vlib import Infra
+    stored = ctx.replay
+    res0 = ctx.tlc_trace("TraceStor.tla", "TraceStor.cfg", stored, timeout=1200)
+    ctx.log("stored trace: %s" % ("accepted" if res0["accepted"] else "rejected at line %s" % res0.get("line")))
+    if '"mode":"gated"' not in open(stored).read():
+        if not res0["accepted"]:
+            ctx.report_rejection(stored, res0)
+        return
+    drv = ctx.go_build("stor")
+    again = os.path.join(ctx.work, "stor-replayed.ndjson")
+    rc, out, summ = ctx.driver(drv, ["replay", again, stored], timeout=900)
+    if rc != 0 or not summ.get("gates_seen"):
+        raise Infra("stor replay failed rc=%d (no gates?)\n%s" % (rc, out[-2000:]))
+    res = ctx.tlc_trace("TraceStor.tla", "TraceStor.cfg", again, timeout=1200)
+    if not res["accepted"]:
+        ctx.report_rejection(again, res)
+
+
 def run(ctx):
     from vlib import Infra
+    if ctx.replay:
+        return replay(ctx)
     th = ctx.thorough()
     # 1. design level: exhaustive TLC
     # (VERIF_SKIP_MC=1: developer shortcut for mutation loops, skips the spec-only runs)
